@@ -510,6 +510,7 @@ class Sim(object):
 
     def run_history(self):
         out = []
+        handed_out = []          # (run index, Playback): what was handed out must not change when later runs happen
         ctx, tr, spy = self.ctx, self.tr, self.spy
         for run_index, run in enumerate(self.case['runs']):
             if self.case.get('fresh_before_last') and run_index == len(self.case['runs']) - 1:
@@ -597,6 +598,7 @@ class Sim(object):
                 try:
                     pb = tr.play(real, playback_function)
                     result = ['played', self.outputs(pb.playback_outputs), self.outputs(pb.recorded_outputs)]
+                    handed_out.append((len(out), pb))
                     if pb.original_recording.id != real:
                         result.append('wrong-original-recording')
                 except Exception as ex:
@@ -607,6 +609,12 @@ class Sim(object):
                 out.append({'result': result, 'journal': ctx.journal, 'log': self.log_since(log0), 'idle': self.idle(),
                             '_outcomes': ctx.outcomes, '_stored_calls': stored,
                             '_store_unchanged': digest_before == self.store_digest()})
+        for idx, pb in handed_out:
+            try:
+                late = ['played', self.outputs(pb.playback_outputs), self.outputs(pb.recorded_outputs)]
+            except Exception as ex:
+                late = ['unreadable', type(ex).__name__]
+            out[idx]['_result_at_end'] = late
         if self.case.get('default_lookup') and out:
             from playback.studio.recordings_lookup import find_matching_recording_ids, RecordingLookupProperties
             found = {}
